@@ -16,6 +16,8 @@ answers `<result> ; <state>` where the state is
   timer out <tMs> <update|eor|refresh|operational>   ExaBGP writes a message (Protocol.send / new_eor / …) → idle
   timer estab-recv <localHold> <peerHold> <tMs>      `_establish`: ReceiveTimer from the negotiated hold time
   timer estab-send <localHold> <peerHold> <tMs>      `_main`: KA / SendTimer from the negotiated hold time
+  timer openconfirm <localHold> <peerHold> <tWms> <nowMs> <t:kind,t:kind,…|->   `_read_ka`: the wait for the first KEEPALIVE
+                                                     → waiting | established a | notify t c s | race t
   timer state
   timer keepalive <H>                       HoldTime(H).keepalive()
   timer kind <name>                         → <TYPE byte> <SCHEDULING>
@@ -109,6 +111,21 @@ def timerLine (s : Sess) (ws : List String) : Sess × String :=
     match l.toNat?, p.toNat?, t.toNat? with
     | some l, some p, some t => withState { s with send := Send.establish l p t } "ok"
     | _, _, _ => bad
+  | ["openconfirm", l, p, tw, now, arr] =>
+    let poll? (x : String) : Option Poll :=
+      match x.splitOn ":" with
+      | [t, k] => match t.toNat?, Kind.ofName k with
+        | some t, some k => some { t := t, kind := k }
+        | _, _ => none
+      | _ => none
+    match l.toNat?, p.toNat?, tw.toNat?, now.toNat?, (splitComma arr).mapM poll? with
+    | some l, some p, some tw, some now, some arr =>
+      (s, match openConfirm (negotiatedHold l p) tw arr now with
+          | .waiting => "waiting"
+          | .established a => s!"established {a}"
+          | .notify t c sb => s!"notify {t} {c} {sb}"
+          | .race t => s!"race {t}")
+    | _, _, _, _, _ => bad
   | ["state"] => (s, showSess s)
   | ["keepalive", h] =>
     match h.toNat? with
